@@ -100,6 +100,11 @@ the node's pod is not held):
 | replace | none (the new workload inherits the resources) | workload lock only |
 | add-node | creates a record nobody else can address yet | none |
 
+The table is a CHECKED FACT, not an assumption about the code: on every run the harness records the lock /
+unlock events (`ckit.Options{TraceLocks}`) and fails with `C10:usage-write-without-pod-lock` if any of the calls of
+the middle column is made while the pod lock of the node's pod is not held (a seeded change that moves dissociate or
+the node-resource repair to the node-operation lock is caught by exactly this check).
+
 Under that discipline an operation's usage-changing section is an atomic block with respect to
 every other such section of the same pod. Create's deploy phase runs outside the lock but writes no
 usage and only adds records with fresh ids; it is treated as part of create's block. -/
@@ -123,6 +128,18 @@ theorem consistent_concurrent_partial (xs ys : List (Op R × Option Addr × Opti
   · intro f hf s' hs'
     obtain ⟨p, hp, rfl⟩ := List.mem_map.mp hf
     exact consistent_step_partial p.1 p.2.1 s' p.2.2 hs' ((hy p hp).1 s') (hy p hp).2
+
+/-- **C10 under interleaving, any number of clients**: every interleaving of the operation sequences
+of any number of concurrent clients (each client's own order kept) preserves the invariant. -/
+theorem consistent_concurrentN_partial (clients : List (List (Op R × Option Addr × Option (Addr × Bool))))
+    (hok : ∀ xs ∈ clients, ∀ p ∈ xs, BlockOK p)
+    (sched : List (State R → State R)) (h : sched ∈ mergesAll (clients.map (·.map block)))
+    (s : State R) (hs : Inv s) : Inv (runBlocks sched s) := by
+  apply pres_of_interleavingN Inv (clients.map (·.map block)) _ sched h s hs
+  intro fs hfs f hf s' hs'
+  obtain ⟨xs, hxs, rfl⟩ := List.mem_map.mp hfs
+  obtain ⟨p, hp, rfl⟩ := List.mem_map.mp hf
+  exact consistent_step_partial p.1 p.2.1 s' p.2.2 hs' ((hok xs hxs p hp).1 s') (hok xs hxs p hp).2
 
 /-- two operations started together end in one of the two sequential orders (what the harness'
 concurrent stream compares the real post-state with) -/
